@@ -585,9 +585,33 @@ func runBounded(w *World, verifDir, prop, tier string, known []finding) ([]map[s
 			to = 300
 		}
 		t0 := time.Now()
-		o, failed := runOverlayTest(w.Repo, filepath.Join(w.Repo, b.Package), "zz_lbvc_bounded_test.go", string(src), b.Test, to, "LBVC_TIER="+tier)
+		// known findings of a stand-in are listed per CASE (obligation=bounded:<id>@<case key>): the harness is told the
+		// keys, reports such a case as LBVC-BOUNDED-KNOWN and goes on, so that any other failing case is still a violation
+		knownCases := map[string]finding{}
+		var keys []string
+		for _, k := range known {
+			if k.Prop == prop && strings.HasPrefix(k.Obl, "bounded:"+b.ID+"@") {
+				key := strings.TrimPrefix(k.Obl, "bounded:"+b.ID+"@")
+				knownCases[key] = k
+				keys = append(keys, key)
+			}
+		}
+		o, failed := runOverlayTest(w.Repo, filepath.Join(w.Repo, b.Package), "zz_lbvc_bounded_test.go", string(src), b.Test, to, "LBVC_TIER="+tier, "LBVC_KNOWN_CASES="+strings.Join(keys, ";"))
 		rec := map[string]interface{}{"id": b.ID, "stands_in_for": b.StandsFor, "bound": b.Bound[tier], "label": "bounded (not a proof)", "wall_s": time.Since(t0).Seconds()}
+		seenKnown := map[string]bool{}
 		for _, line := range strings.Split(o, "\n") {
+			if i := strings.Index(line, "LBVC-BOUNDED-KNOWN "); i >= 0 {
+				key := strings.TrimSpace(line[i+len("LBVC-BOUNDED-KNOWN "):])
+				if j := strings.Index(key, ":"); j >= 0 {
+					key = key[:j]
+				}
+				if k, ok := knownCases[key]; ok && !seenKnown[key] {
+					seenKnown[key] = true
+					fmt.Printf("KNOWN-FINDING: property=%s bounded:%s@%s: %s\n", prop, b.ID, key, k.What)
+					kf, _ := rec["known_findings_reported"].([]string)
+					rec["known_findings_reported"] = append(kf, "bounded:"+b.ID+"@"+key)
+				}
+			}
 			if i := strings.Index(line, "LBVC-BOUNDED-STATS "); i >= 0 {
 				for _, f := range strings.Fields(line[i+len("LBVC-BOUNDED-STATS "):]) {
 					kv := strings.SplitN(f, "=", 2)
